@@ -336,6 +336,55 @@ pub fn draw_points(rng: &mut Rng, lifetimes: &[Lifetime], budget: usize) -> Vec<
             pts.push(mk(rng, li, index));
         }
     }
+    // one enumeration burst per run: at a sync chosen at random, every "all pending writes kept
+    // but one" image (the family that exposes a page some root needs but no checksum covers)
+    // (lifetime, index of the sync, number of writes since the previous sync): syncs that make many
+    // writes durable at once have the most ways to lose one, so they are drawn proportionally
+    let mut syncs: Vec<(usize, usize, usize)> = vec![];
+    for (li, l) in lifetimes.iter().enumerate() {
+        let (_, from) = allowed_along(l);
+        let from = if l.created { from } else { 0 };
+        let mut w = 0usize;
+        for (i, op) in l.log.iter().enumerate() {
+            match op {
+                DOp::Write { .. } => w += 1,
+                DOp::Sync { ok: true } => {
+                    if i >= from && w >= 2 {
+                        syncs.push((li, i, w));
+                    }
+                    w = 0;
+                }
+                _ => {}
+            }
+        }
+    }
+    let bursts = if budget >= 30 { 2 } else if budget >= 8 { 1 } else { 0 };
+    for _ in 0..bursts {
+        let total_w: usize = syncs.iter().map(|s| s.2).sum();
+        if total_w == 0 {
+            break;
+        }
+        let mut pick = rng.usize(total_w);
+        let mut at = 0;
+        for (j, s) in syncs.iter().enumerate() {
+            if pick < s.2 {
+                at = j;
+                break;
+            }
+            pick -= s.2;
+        }
+        let (li, k, _) = syncs.remove(at);
+        let mut w = CrashWalker::new(lifetimes[li].base.clone(), &lifetimes[li].log);
+        w.advance_to(k);
+        let n = w.pending_count();
+        if n >= 2 {
+            let start = rng.usize(n);
+            for j in 0..n.min(24) {
+                let i = (start + j) % n;
+                pts.push(CrashPoint { lifetime: li, index: k, choice: CrashChoice::AllBut(i as u32), nested: vec![], post_seed: rng.next() });
+            }
+        }
+    }
     pts.sort_by_key(|p| (p.lifetime, p.index));
     pts
 }
